@@ -14,6 +14,7 @@ import SkNet.Lemmas.Builders
 import SkNet.Lemmas.Split
 import SkNet.Lemmas.SplitAgree
 import SkNet.Lemmas.MergeW
+import SkNet.Lemmas.ParisMono
 
 namespace SkNet.C07
 open SkNet SkNet.Dendro SkNet.Hier
@@ -472,5 +473,90 @@ example : SkNet.Agg.getEntry (SkNet.Agg.mergeNb
     SkNet.Agg.getEntry (SkNet.Agg.mergeNb
       ([(0, [(1, 2), (2, 1)]), (1, [(0, 2), (2, 3)]), (2, [(0, 1), (1, 3)])] : Dict (Dict Rat)) 0 1 3) 3 3 = 4 := by
   decide +kernel
+
+
+/-! ### Paris, complete (repaired code) -/
+
+section parisComplete
+open SkNet.Paris SkNet.Agg SkNet.Cut
+
+/-- the rows written by `Paris.fit` before the reordering never decrease towards the root: the height of a merge is
+    clamped by the heights of the clusters it merges (F19, repaired), the joins are at infinite height -/
+theorem paris_rows_mono (round32 : ℚ → ℚ) (fuel : Nat) (csr : List (List (Nat × ℚ))) (outW inW : List ℚ)
+    {rows : List (Row (HInf ℚ))} (h : fitRows round32 fuel (AggGraph.init csr outW inW) = .ok (some rows)) :
+    MonoPaths csr.length rows = true := by
+  apply monoPaths_of_monoRows_gen
+  unfold fitRows at h
+  obtain ⟨res, hres, h⟩ := bind_ok h
+  cases res with
+  | none => simp [pure, Except.pure] at h
+  | some st =>
+    simp only at h
+    obtain ⟨rows', hj, h⟩ := bind_ok h
+    simp only [pure, Except.pure, Except.ok.injEq, Option.some.injEq] at h
+    subst h
+    have hnext : (AggGraph.init csr outW inW).next = csr.length := rfl
+    rw [hnext] at hres
+    obtain ⟨L, hp, _⟩ := chainLoop_pinv (n := csr.length) round32 _ fuel _ st _ (pinv_init csr outW inW) hres
+    have hM := chainLoop_mono (n := csr.length) round32 fuel _ st _ (pinv_init csr outW inW)
+      (by intro r hr; simp at hr) hres
+    unfold joinComponents at hj
+    split at hj
+    · cases hj
+    · rename_i node0 size0 restRev hrev
+      simp only [Except.ok.injEq] at hj
+      subst hj
+      have hcomps : st.comps = restRev.reverse ++ [(node0, size0)] := by
+        have := congrArg List.reverse hrev
+        simpa using this
+      have hb : ∀ p ∈ st.comps, p.1 < csr.length + st.rows.length := fun p hpm =>
+        hp.linv.bound _ (Dict.get?_some_key_mem (hp.compsOK p hpm).1)
+      have := join_mono csr.length restRev.reverse st.rows node0 size0 hM
+        (hb (node0, size0) (by rw [hcomps]; simp))
+        (fun p hpm => hb p (by rw [hcomps]; exact List.mem_append_left _ hpm))
+      rw [hp.next]
+      exact this
+
+/-- **Paris** (`paris_valid`, rational scalars, any rounding function in place of the float32 casts): whenever the
+    nearest-neighbour chain returns, the dendrogram returned by `Paris.fit` is a valid dendrogram over the `n` nodes;
+    with `reorder=True` its heights never decrease, with `reorder=False` they never decrease towards the root.
+    (False on the pinned tree for rare graphs: F19, repaired — a float32 near-tie put a parent below its child.) -/
+theorem paris_valid (round32 : ℚ → ℚ) (fuel : Nat) (csr : List (List (Nat × ℚ))) (outW inW : List ℚ) (reorder : Bool)
+    {D : Dendro (HInf ℚ)} (h : Paris.fit round32 fuel (AggGraph.init csr outW inW) reorder = .ok (some D)) :
+    ValidDendro csr.length D = true ∧ (if reorder then heightsSorted D = true else MonoPaths csr.length D = true) := by
+  unfold Paris.fit at h
+  obtain ⟨res, hres, h⟩ := bind_ok h
+  cases res with
+  | none => simp [pure, Except.pure] at h
+  | some rows =>
+    simp only at h
+    have hv := paris_valid_partial round32 fuel csr outW inW hres
+    have hm := paris_rows_mono round32 fuel csr outW inW hres
+    cases reorder with
+    | false =>
+      simp only [Bool.false_eq_true, if_false, pure, Except.pure, Except.ok.injEq, Option.some.injEq] at h
+      subst h
+      exact ⟨hv, hm⟩
+    | true =>
+      simp only [if_true] at h
+      obtain ⟨D', hD', hvD', hsD', _, _⟩ := reorder_valid_core hv hm
+      have : reorderDendrogram rows = .ok D' := hD'
+      rw [this] at h
+      simp only [Except.map, Except.ok.injEq, Option.some.injEq] at h
+      subst h
+      exact ⟨hvD', hsD'⟩
+
+/-- non-vacuity: the coordinator's 7-node witness of F19 with exact rational similarities (no rounding): the chain
+    returns and the reordered dendrogram is valid and sorted -/
+example : (match Paris.fit (α := ℚ) id 400
+      (AggGraph.init
+        [[(3, 1/26), (5, 1/26)], [(2, 1/26), (3, 1/26), (6, 1/26)], [(1, 1/26), (3, 1/26), (4, 1/26), (6, 1/26)],
+         [(0, 1/26), (1, 1/26), (2, 1/26), (4, 1/26), (5, 1/26), (6, 1/26)], [(2, 1/26), (3, 1/26), (5, 1/26)],
+         [(0, 1/26), (3, 1/26), (4, 1/26), (6, 1/26)], [(1, 1/26), (2, 1/26), (3, 1/26), (5, 1/26)]]
+        [2/26, 3/26, 4/26, 6/26, 3/26, 4/26, 4/26] [2/26, 3/26, 4/26, 6/26, 3/26, 4/26, 4/26]) true with
+    | .ok (some D) => ValidDendro 7 D && heightsSorted D
+    | _ => false) = true := by decide +kernel
+
+end parisComplete
 
 end SkNet.C07
